@@ -511,7 +511,9 @@ def gen_sig_opts(r, critical):
 def ok_garbage(g):
     for prefix in (b"", CSM_WIRE):
         for o in all_branches(prefix + g):
-            if o.dispatch or o.end == "unchecked":
+            # must end in a definite Abort inside the garbage itself (an
+            # incomplete tail would swallow the frames that follow)
+            if o.dispatch or o.end != "abort":
                 return False
     return True
 
@@ -971,7 +973,7 @@ def install_tap(ctx, sink, sim, closing_of=None):
         def wrap(orig, what):
             def f(msg):
                 closing = bool(closing_of(msg)) if closing_of is not None else False
-                sink.append({"what": what, "m": snapshot(msg), "t": sim.loop.now, "closing": closing})
+                sink.append({"what": what, "m": snapshot(msg), "t": sim.loop.now, "closing": closing, "remote": msg.remote})
                 return orig(msg)
             return f
 
@@ -1546,10 +1548,13 @@ def run_a(sim, scn, chunk, wid, nworld):
     handler_by_tag = {}
     for h in handler_log:
         handler_by_tag.setdefault(tag_of(h["m"]), []).append(h["m"])
+    ctap = [e for t in ctaps for e in t]
     stap_msgs = [e["m"] for e in stap]
-    ctap_msgs = [e["m"] for t in ctaps for e in t]
-    used_s = [False] * len(stap_msgs)
-    used_c = [False] * len(ctap_msgs)
+    ctap_msgs = [e["m"] for e in ctap]
+    protos = [c.s.get_protocol() for c in sn.conns] + [c.c.get_protocol() for c in sn.conns]
+    for e in stap + ctap:
+        if not any(e["remote"] is p for p in protos):
+            raise RuntimeError("message handed to a token manager with a remote that is no simulated connection")
     for conn in sn.conns:
         frames = {}
         for d in ("c2s", "s2c"):
@@ -1588,25 +1593,16 @@ def run_a(sim, scn, chunk, wid, nworld):
             if msg_key(m, False) != msg_key(want, False):
                 viol("C15/sent-message-differs", {"tag": tag, "written": brief(m), "given": brief(want), "side": "server"})
         # the receiver hands on exactly the frames that arrived, in order
-        for d, tapm, used, who in (("c2s", stap_msgs, used_s, "server"), ("s2c", ctap_msgs, used_c, "client")):
+        for d, who in (("c2s", "server"), ("s2c", "client")):
             pipe = conn.pipe(d)
             arrived = [m for (a, b, m, e, raw0) in frames[d] if m is not None and b <= pipe.delivered and m["code"] >> 5 != 7]
             keyset = [msg_key(m) for m in arrived]
-            got = []
-            for i, m in enumerate(tapm):
-                if not used[i] and msg_key(m) in keyset and (tok2tag.get(m["token"]) is not None):
-                    # attribute by content: tag (request) or token->tag (response) belongs to this connection
-                    if (d == "c2s" and tok2tag.get(m["token"]) == tag_of(m)) or d == "s2c":
-                        used[i] = True
-                        got.append(m)
+            proto = (conn.s if d == "c2s" else conn.c).get_protocol()
+            got = [e["m"] for e in (stap if d == "c2s" else ctap) if e["remote"] is proto]
             if [msg_key(m) for m in got] != keyset:
                 dv, _ = compare_seq(arrived, got)
                 for kind, detail in dv or [("C15/dispatch-order", {})]:
                     viol(kind, dict(detail, conn=conn.name, receiver=who))
-    for used, tapm, who in ((used_s, stap_msgs, "server"), (used_c, ctap_msgs, "client")):
-        for i, m in enumerate(tapm):
-            if not used[i]:
-                viol("C15/empty-message-dispatched" if m["code"] == 0 else "C15/unexpected-dispatch", {"dispatched": brief(m), "receiver": who})
     # application level
     for tag, op in ops.items():
         want_req = strip_path(a_request_msg(op))
